@@ -6,6 +6,7 @@ mod journal;
 mod perm;
 mod route;
 mod srv;
+mod stress;
 mod wire;
 
 fn main() {
